@@ -172,6 +172,10 @@ class Assembly:
         body, c = X.r12_exec_asserts(body); log.append(('R12 exec-assert', c))
         body, c = X.r8_opaque_text(body); log.append(('R8 opaque-text/panic-args', c))
         body, c = X.r11_split_or_guard(body); log.append(('R11 or-pattern/guard split', c))
+        if 'breaktype' in a:
+            # breaktype="name=Type;name2=Type2"
+            types = dict(x.split('=', 1) for x in a['breaktype'].split(';;'))
+            body, c = X.r10_break_value(body, types); log.append(('R10 break-with-value desugar', c))
         # structure of the ORIGINAL body (before the logged substitutions): a changed number of loops / closures is exit 2
         nl, nc = X.count_loops(body), X.count_closures(body)
         _lock_check(a, item, nl, nc)
